@@ -12,18 +12,25 @@ META = {
     "technique": "Coq proof about a Gallina mirror of symbol_resolver.py (_construct_symbol_tables, _find_target_of_reference, "
                  "_resolve_field_reference) and ir_util.find_object + differential correspondence with the real passes on "
                  "generated scope trees and the testdata corpus (vm_compute) + by-construction oracle of intended targets",
-    "level_text": "Machine-checked theorems (Coq 8.16, no axioms), for all scope trees and all references: the head of a "
-                  "reference resolves to d iff d is the only definition visible under the declarative visibility relation "
-                  "(own scope: every name; enclosing types, module, prelude: type names and import aliases), a missing-name "
-                  "error iff none and an ambiguity error iff two or more are visible; a name visible from two scopes is never "
-                  "resolved by precedence except for is_local_name references (inline types), which resolve to the innermost "
-                  "visible scope exactly; the dotted tail and the members after a dot follow children / the referenced field's "
-                  "type; every definition of a module without duplicate errors has a unique canonical name and find_object "
-                  "returns it; abbreviations and `this` are never found as a head from another scope nor as a member after a "
-                  "dot.  Refuted (witness proved): an abbreviation IS reached through the tail of a static reference "
-                  "`Type.abbr` (the real compiler binds it and rejects the module only in type_check).  The model is tied to "
-                  "/repo on every run: model and real passes are run on the same surface IR and every reference's canonical "
-                  "name or every error (kind, file, line, name, notes) is compared, both for accepted and rejected modules.",
+    "level_text": "Machine-checked theorems (Coq 8.16, no axioms), for all scope trees and all references, no size bound: "
+                  "(resolve_unique) an ordinary reference is bound to cn without error iff its head has exactly one visible "
+                  "definition under the declarative visibility relation (own scope: every name; enclosing types, module, "
+                  "prelude: type names and import aliases) and the dotted name leads from it to cn; unresolved iff an error is "
+                  "reported iff nothing is designated (missing-name error when none is visible, ambiguity error when two or more "
+                  "are); (no_precedence) a name visible from two scopes is never resolved, except is_local_name references "
+                  "(types of inline fields), which bind to the innermost visible scope exactly and never report ambiguity; "
+                  "(pass) resolve_symbols accepts an IR iff no scope holds a name twice, no import alias repeats and every "
+                  "reference resolves alone; (canonical_name_roundtrip) in an IR without duplicate errors find_object returns "
+                  "every definition from its canonical name and canonical names are pairwise distinct; duplicate errors iff some "
+                  "scope is asked to hold a name twice; (members) a field reference a.b.c resolves to cns iff the member relation "
+                  "(members of the referenced field's type, through virtual aliases) designates cns; (abbreviation_private) "
+                  "non-SEARCHABLE names (abbreviations, `this`, fields, parameters, enum values) are never found as a head from "
+                  "another scope, and a member lookup returns an object carrying the requested name.  Refuted, witness proved and "
+                  "replayed each run: an abbreviation IS reached through the tail of a static reference `Type.abbr` (the real "
+                  "resolver binds it; the module is rejected only later, by type_check).  The model is tied to /repo on every run: "
+                  "model and real passes run on the same surface IR; the canonical name of every reference or every error (kind, "
+                  "file, line, name, notes) is compared, for accepted and rejected modules; independently every generated reference "
+                  "carries its intended target by construction and is compared with the compiler's binding.",
     "level_note": "Trusted: Coq kernel + vm_compute; harness/scope_x.py (IR translator; the order of references is taken "
                   "from traverse_ir, their scope context is computed independently); harness/gen_scope.py's oracle for the "
                   "by-construction labels.  Modelled not verified: the Python source itself.  The four-traversal table "
@@ -283,7 +290,8 @@ def corpus_jobs():
     out = []
     for p in sorted(glob.glob(os.path.join(CORPUS, "*.json"))):
         d = json.load(open(p))
-        out.append(dict(label="corpus:" + os.path.basename(p), files=d["files"], main=d["main"], gen=None))
+        out.append(dict(label="corpus:" + os.path.basename(p), files=d["files"], main=d["main"], gen=None,
+                        expect=d.get("expect")))
     return out
 
 
@@ -305,7 +313,7 @@ def work(job):
     passes, label by construction.  Returns only plain data."""
     rec = Rec()
     res = dict(label=job["label"], files=job.get("files"), main=job.get("main"), gen=job.get("gen"),
-               ok=False, term=None, expected=None, status=None, nrefs=0, crash=None, violations=[],
+               ok=False, term=None, expected=None, status=None, nrefs=0, crash=None, violations=[], checked=False,
                fault=None, counts=rec.counts, notes=rec.notes, error=None)
     try:
         if job.get("gen") is not None:
@@ -330,6 +338,17 @@ def work(job):
             res["nrefs"] = len(c.tr.refsA) + len(c.tr.frs)
             if c.gen is not None:
                 res["violations"] = by_construction(rec, c)
+                res["checked"] = True
+            elif job.get("expect") and not c.ob.crash:
+                # hand-made corpus module: the verdict the scoping rules demand
+                rejected = bool(c.ob.errors1) or bool(c.ob.errors2)
+                reached = c.ob.errors1 is not None or c.ob.stage2 is not None
+                if job["expect"] == "accept" and rejected:
+                    res["violations"] = [("valid-name-rejected", "corpus module that the scoping rules accept is rejected: %s"
+                                          % ((c.ob.errors1 or []) + (c.ob.errors2 or []))[:3], {})]
+                elif job["expect"] == "reject" and reached and not rejected:
+                    res["violations"] = [("invalid-name-silently-resolved",
+                                          "corpus module with an undefined/duplicate/ambiguous name is accepted", {})]
                 res["checked"] = True
     except Exception as ex:
         res["error"] = (repr(ex), traceback.format_exc())
@@ -451,12 +470,12 @@ def run(ctx):
                 ctx.violation(key, desc + " [%s]" % r["label"], replay_of_res(r, fault=r["fault"], **extra), found_input=True)
 
     for r in ready:
-        if r["gen"] is None:
+        if not r.get("checked"):
             continue
         n_checked += 1
         report(r)
     ctx.obligation("by construction: intended target = resolved canonical name, error iff the construction made the name "
-                   "missing/duplicate/ambiguous, on %d generated module sets" % n_checked, not flagged)
+                   "missing/duplicate/ambiguous, on %d generated and hand-labelled module sets" % n_checked, not flagged)
 
     if bad_labels:
         unexplained = [l for l in bad_labels if l not in flagged]
